@@ -1221,7 +1221,7 @@ def impl_strptime(a):
 
 def impl_strftime(a):
     try:
-        return ok(_dt.datetime(*a["v"]).strftime(a["fmt"]))
+        return ok(converter.serialize(_dt.datetime(*a["v"]), format=a["fmt"]))
     except Exception:  # noqa: BLE001
         return err("ValueError")
 
@@ -1324,7 +1324,7 @@ CORRS = [
     Corr("conv.float_repr", gen_float_repr, impl_float_repr, classify=classify_float_repr, nontrivial=lambda a, o: "ok" in o,
          describe="repr(float(s)) computed exactly in Lean (round-half-even to binary64, shortest repr) vs CPython"),
     Corr("conv.strptime", gen_strptime, impl_strptime, classify=classify_strptime, describe="datetime.strptime for numeric directives vs the regex-order matcher"),
-    Corr("conv.strftime", gen_strftime, impl_strftime, classify=classify_strftime, describe="strftime (glibc: %Y unpadded) for numeric directives"),
+    Corr("conv.strftime", gen_strftime, impl_strftime, classify=classify_strftime, describe="DateTimeBase.serialize (strftime, %Y padded to four digits) for numeric directives"),
     Corr("ns.split_qname", gen_split_qname, impl_split_qname, compare=cmp_split_qname, classify=classify_split_qname),
     Corr("ns.build_qname", gen_build_qname, impl_build_qname),
     Corr("ns.is_ncname", gen_is_ncname, impl_is_ncname, classify=classify_bool),
@@ -1902,8 +1902,6 @@ def covered_roundtrip(a, msg):
     v = a["v"]
     kw = a["kw"]
     inner = v["v"] if v["t"] == "member" else v
-    if inner["t"] in ("pydate", "pydatetime") and inner["v"][0] < 1000 and "Y" in dt_directives(kw.get("format") or ""):
-        return "C05-strftime-year"
     if inner["t"] == "qname":
         ns, local = qname_parts(inner["v"])
         if _is_marked_name(local):
@@ -2067,18 +2065,7 @@ def f_ncname_marks():
     return False, "accepted"
 
 
-def f_strftime_year():
-    d = _dt.date(999, 1, 2)
-    s = converter.serialize(d, format="%Y-%m-%d")
-    try:
-        back = converter.deserialize(s, [_dt.date], format="%Y-%m-%d")
-    except ConverterError:
-        return True, f"serialize(date(999, 1, 2), format='%Y-%m-%d') = {s!r}, which deserialize rejects with the same format"
-    return back != d, f"{s!r} -> {back!r}"
-
-
 FINDINGS = {
-    "C05-strftime-year": f_strftime_year,
     "C05-qname-default-ns": f_default_ns,
     "C05-ncname-unicode": f_ncname_marks,
 }
